@@ -143,7 +143,10 @@ class C18(Prop):
                            "complib.org/method/5", "complib.org/composition/abc", "12abc", "", "-4", " 12 ",
                            "complib.org//composition/3", "ftp.complib.org/composition/9"])
         q = rng.choice(["", "", "?accessKey=abc123", "?substitutedmethodid=27600", "?substitutedmethodid=x",
-                        "?accessKey=a&substitutedmethodid=5", "?a=b=c&accessKey=k", "?accessKey", "#frag"])
+                        "?accessKey=a&substitutedmethodid=5", "?a=b=c&accessKey=k", "?accessKey", "#frag",
+                        "?substitutedmethodid=" + rng.choice(["²", "2³", "①", "₁₂", "٢٠٣٣٦", "", " 7 ", "+5", "-3", "1_0",
+                                                             "0x1F", "1e3", "٣x", "５"]),
+                        "?accessKey=" + rng.choice(["", "k=v", "²", "a b"]) + "&substitutedmethodid=" + rng.choice(["9", "x", "²"])])
         return base + q
 
     def impl(self, req):
